@@ -5,8 +5,12 @@ recorded execution of the real code rejected by a TLA+ trace specification."""
 import json, os, re, shutil, subprocess, sys, time, hashlib, concurrent.futures as cf
 
 ROOT = os.path.dirname(os.path.dirname(os.path.abspath(__file__)))
+# the repository under verification.  /repo unless VERIF_REPO names another checkout (development aid: lets a long background
+# sweep run against a frozen copy while /repo is being worked on); registered commands never set it.
+REPO = os.environ.get("VERIF_REPO", "/repo")
 SPEC = os.path.join(ROOT, "spec")
 HARNESS = os.path.join(ROOT, "harness")
+HARNESS_SRC = HARNESS
 WORK = os.path.join(ROOT, "work")
 EVID = os.path.join(ROOT, "evidence")
 VH = os.path.join(HARNESS, "target", "release", "vh")
@@ -32,15 +36,29 @@ _built = False
 
 
 def build_harness():
-    """cargo build the harness against /repo's current working tree (hooks enabled through
+    """cargo build the harness against the repository's current working tree (hooks enabled through
     harness/.cargo/config.toml).  Always invoked: cargo decides what is stale."""
-    global _built
+    global _built, HARNESS, VH
     if _built:
         return
     ensure_dirs()
+    if REPO != "/repo":
+        # a private copy of the harness crate whose path dependencies point at that checkout
+        alt = os.path.join(WORK, "harness-alt")
+        os.makedirs(alt, exist_ok=True)
+        subprocess.run(["rsync", "-a", "--delete", "--exclude", "target", "--exclude", "Cargo.lock", HARNESS_SRC + "/", alt + "/"], check=True)
+        with open(os.path.join(alt, "Cargo.toml")) as f:
+            toml = f.read()
+        with open(os.path.join(alt, "Cargo.toml"), "w") as f:
+            f.write(toml.replace('"/repo/', '"%s/' % REPO))
+        HARNESS = alt
+        VH = os.path.join(alt, "target", "release", "vh")
     lock = os.path.join(HARNESS, "Cargo.lock")
     if not os.path.exists(lock):
-        shutil.copy("/repo/Cargo.lock", lock)
+        for cand in (os.path.join(REPO, "Cargo.lock"), os.path.join(HARNESS_SRC, "Cargo.lock"), "/repo/Cargo.lock"):
+            if os.path.exists(cand):
+                shutil.copy(cand, lock)
+                break
     env = dict(os.environ, CARGO_NET_OFFLINE="true")
     t0 = time.time()
     p = subprocess.run(["cargo", "build", "--release", "--offline"], cwd=HARNESS, env=env,
@@ -288,8 +306,8 @@ def load_replay(path):
 
 def repo_rev():
     try:
-        r = subprocess.run(["git", "-C", "/repo", "rev-parse", "HEAD"], stdout=subprocess.PIPE, text=True).stdout.strip()
-        d = subprocess.run(["git", "-C", "/repo", "status", "--porcelain"], stdout=subprocess.PIPE, text=True).stdout.strip()
+        r = subprocess.run(["git", "-C", REPO, "rev-parse", "HEAD"], stdout=subprocess.PIPE, text=True).stdout.strip()
+        d = subprocess.run(["git", "-C", REPO, "status", "--porcelain"], stdout=subprocess.PIPE, text=True).stdout.strip()
         return r + ("+dirty" if d else "")
     except Exception:
         return "unknown"
